@@ -327,7 +327,17 @@ class Transaction:
         metadata commit that makes it reachable. Marker write failures
         propagate - a file is never written unprotected (fail closed).
         """
-        marker_name = file_path.rsplit("/", 1)[-1]
+        rel_path = file_path.lstrip("/")
+        directory, _, marker_name = rel_path.rpartition("/")
+        if directory not in ("data", "metadata/manifests"):
+            # A file in a sub-directory (a pre-built file under data/<partition>/):
+            # the basename alone is not unique - data/p=1/part-0.parquet and
+            # data/p=2/part-0.parquet shared ONE marker, the second registration
+            # overwrote the first and the first file lost its protection. Such
+            # markers are named after the whole path (percent-encoded).
+            from urllib.parse import quote
+
+            marker_name = quote(rel_path, safe="")
         marker_path = f"{_INFLIGHT_PATH}/{marker_name}.inflight"
         marker_payload = json.dumps({"file_path": file_path.lstrip("/")}).encode("utf-8")
         self.file_manager.storage.write_file(marker_path, marker_payload)
